@@ -179,22 +179,23 @@ impl Sched {
     pub fn refresh_blocked(&self, i: usize) -> bool {
         let (m, cv) = &*self.sh;
         let mut g = m.lock().unwrap_or_else(|e| e.into_inner());
-        if g.threads[i].status != Status::Blocked {
-            return false;
+        if matches!(g.threads[i].status, Status::Parked(_) | Status::Finished) {
+            return true;
         }
         // the thread itself overwrites Blocked with Parked/Finished when it gets there; give it a moment
         let tid = g.threads[i].os_tid;
         let start = Instant::now();
         loop {
-            if thread_state(tid) == 'S' && start.elapsed() > Duration::from_millis(15) {
-                return false;
-            }
-            let (g2, _) = cv.wait_timeout(g, Duration::from_millis(5)).unwrap_or_else(|e| e.into_inner());
-            g = g2;
             if matches!(g.threads[i].status, Status::Parked(_) | Status::Finished) {
                 return true;
             }
-            if start.elapsed() > Duration::from_millis(300) {
+            // still inside the blocking call (kernel state S and not parked) for a while: it was not released
+            if thread_state(tid) == 'S' && start.elapsed() > Duration::from_millis(25) {
+                return false;
+            }
+            let (g2, _) = cv.wait_timeout(g, Duration::from_millis(2)).unwrap_or_else(|e| e.into_inner());
+            g = g2;
+            if start.elapsed() > Duration::from_millis(500) {
                 return false;
             }
         }
